@@ -148,10 +148,10 @@ def boot (files written delivered : List Nat) : Sys :=
              written, delivered } }
 
 /-- a new `Store` running `LoadCheckpoint` with `SavepointURI` set to the savepoint of checkpoint `id`, on a
-storage holding the job snapshot files `files` (not consulted on this path): the savepoint becomes the current
-checkpoint and the id counter -/
+storage holding the job snapshot files `files`: the savepoint becomes the current checkpoint; the id counter
+continues after the savepoint's id and after the newest local snapshot file (D49 repair) -/
 def bootSavepoint (id : Nat) (files written delivered : List Nat) : Sys :=
-  { store := Store.loadFromSavepoint id,
+  { store := Store.loadFromSavepoint id (maxL files),
     pub := { files, completed := [id], inflight := [], removes := [], notifs := [], written, delivered } }
 
 /-- the job starts on storage that already holds the snapshot files `files0` -/
